@@ -53,7 +53,7 @@ Definition resB_same (a : res bf) (b : res float) : bool :=
 
 Definition eventB_same (a : @event DB) (b : @event DF) : bool :=
   match a, b with
-  | Ret x, Ret y | Fwd x, Fwd y | Dev x, Dev y | Echo x, Echo y => sf_same (bits x) (Prim2SF y)
+  | Ret x, Ret y | Fwd x, Fwd y | Dev x, Dev y | Echo x, Echo y | Adopt x, Adopt y => sf_same (bits x) (Prim2SF y)
   | Exc e, Exc f | Swallowed e, Swallowed f => exn_eqb e f
   | Key, Key => true
   | Push o n, Push o' n' => sf_same (bits o) (Prim2SF o') && sf_same (bits n) (Prim2SF n')
@@ -64,11 +64,12 @@ Definition ropB (o : @rop DF) : @rop DB :=
   match o with
   | RSet x => @RSet DB (toB x) | RReport x => @RReport DB (toB x) | RInject x => @RInject DB (toB x)
   | RUp => @RUp DB | RDown => @RDown DB | RRead => @RRead DB | RPump => @RPump DB
+  | RStream i => @RStream DB (option_map toB i)
   end.
 
 Definition mopB (o : @mop DF) : @mop DB :=
   match o with
-  | MSet x => @MSet DB (toB x) | MReport x => @MReport DB (toB x)
+  | MSet x => @MSet DB (toB x) | MReport x => @MReport DB (toB x) | MOther x => @MOther DB (toB x)
   | MUp => @MUp DB | MDown => @MDown DB | MRead => @MRead DB
   end.
 
@@ -110,18 +111,21 @@ Definition eExc (e : exn) : @event DF := @Exc DF e.
 Definition eFwd (x : float) : @event DF := @Fwd DF x.
 Definition eDev (x : float) : @event DF := @Dev DF x.
 Definition eEcho (x : float) : @event DF := @Echo DF x.
+Definition eAdopt (x : float) : @event DF := @Adopt DF x.
 Definition eKey : @event DF := @Key DF.
 Definition ePush (a b : float) : @event DF := @Push DF a b.
 Definition eSwallowed (e : exn) : @event DF := @Swallowed DF e.
 Definition rSet (x : float) : @rop DF := @RSet DF x.
 Definition rReport (x : float) : @rop DF := @RReport DF x.
 Definition rInject (x : float) : @rop DF := @RInject DF x.
+Definition rStream (i : option float) : @rop DF := @RStream DF i.
 Definition rUp : @rop DF := @RUp DF.
 Definition rDown : @rop DF := @RDown DF.
 Definition rRead : @rop DF := @RRead DF.
 Definition rPump : @rop DF := @RPump DF.
 Definition mSet (x : float) : @mop DF := @MSet DF x.
 Definition mReport (x : float) : @mop DF := @MReport DF x.
+Definition mOther (x : float) : @mop DF := @MOther DF x.
 Definition mUp : @mop DF := @MUp DF.
 Definition mDown : @mop DF := @MDown DF.
 Definition mRead : @mop DF := @MRead DF.
